@@ -36,3 +36,17 @@ fn c14_format_units_large() {
 #[kani::proof]
 #[kani::unwind(10)]
 fn canary_sizefmt_must_fail() { assert!(opt("kb", 0).1 == Base::Binary, "CANARY must fail"); }
+
+// the unit text: the kilo unit is spelled KB (documentation: `'%.0 kb'` -> 1678 KB), and `s` shortens every unit to its first letter
+fn text(rendered: &'static str, short: bool) -> String { unsafe { humansize::RENDERED = rendered; } frag_size_text(0, humansize::Opts, short) }
+#[kani::proof]
+#[kani::unwind(12)]
+fn c14_format_unit_text() {
+    kani::cover!(true);
+    assert!(text("1678 kB", false) == "1678 KB", "OBL C14.format.text: the 1000-based kilo unit is written KB");
+    assert!(text("1.60 MiB", false) == "1.60 MiB", "OBL C14.format.text: binary units are left as rendered");
+    assert!(text("2 MiB", true) == "2 M", "OBL C14.format.text: s shortens MiB to M");
+    assert!(text("1.50 kB", true) == "1.50 K", "OBL C14.format.text: s shortens the decimal / conventional kilo unit to K");
+    assert!(text("1.46 KiB", true) == "1.46 K", "OBL C14.format.text: s shortens KiB to K");
+    assert!(text("1.68 MB", true) == "1.68 M" && text("3 GB", true) == "3 G" && text("3 GiB", true) == "3 G", "OBL C14.format.text: s shortens MB / GB / GiB");
+}
